@@ -54,6 +54,21 @@ through every output route and a rotating THIRD of the form grid (every case: tw
 half of the in-memory containers per cell + the rotating real-file forms); ``big:<class>:route:<route>``,
 ``big:<class>:form:<form>`` and ``big:<class>:api:<api>`` counters, measured on the text the library really dumped,
 carry floors.
+
+"asm" class (extension): MULTI-PARAGRAPH DOCUMENTS WRITTEN PARAGRAPH BY PARAGRAPH, the way programs write them - documents of 2..5
+paragraphs; per paragraph the text of ONE output route followed by the customary single separator newline:
+``str(p) + '\\n'``, ``p.dump() + '\\n'``, ``bytes(p) + b'\\n'`` concatenated; ``p.dump(fd)`` (with / without encoding=) +
+``fd.write(b'\\n')`` into ONE shared io.BytesIO or real binary file (default / no / odd buffers, a pad already written);
+``p.dump(fd, text_mode=True)`` + ``fd.write('\\n')`` into ONE shared io.StringIO, real text file or io.TextIOWrapper;
+``print(p, file=fd)``; ``'\\n'.join(str(p) ...)``, ``'\\n'.join(p.dump() ...)``, ``b'\\n'.join(bytes(p) ...)``; and MIXED documents
+(every paragraph through a route drawn afresh - dump(fd), fd.write(bytes(p)), fd.write(str(p).encode()), ... - into one shared
+binary / text stream).  Nothing is cut into lines and re-joined by the harness here: the text the program would have on disk is
+re-read WHOLE through every input form x {Deb822, Dsc, Changes}.iter_paragraphs and must give the model document - the same
+NUMBER of paragraphs, the same fields in the same order with the same values.  A route whose paragraph text lacks its final
+newline merges paragraphs; that shows as ``paragraph-count-differs/assembled-by=<routes>``.  That every paragraph text ends in
+exactly one newline is ESTABLISHED per part (``asm:part-ends-in-exactly-one-newline:<part>`` against ``asm:part-ending-other:<part>``
+- 0 on the unchanged tree), not judged by itself.  Assembly routes are grouped by the text they wrote (unchanged tree: two texts
+- with / without the separator after the last paragraph); ``asm:<route>:<API>`` counters carry floors per (route x API).
 """
 import io
 import os
@@ -107,7 +122,22 @@ RULE = ('Model documents of 1..4 paragraphs x 1..6 fields: names over policy-val
         '1000..6000 continuation lines, alone and inside multi-paragraph documents; ASCII / latin-1 / multi-byte contents; '
         'numbered tokens so that loss, duplication and reordering are unambiguous.  A big document goes through every output '
         'route and a rotating third of the form grid (two plain cells differing in comments AND leading blanks, one armoured '
-        'cell; half of the in-memory containers per cell + the real-file forms of the cell).')
+        'cell; half of the in-memory containers per cell + the real-file forms of the cell).  "asm" class (160 quick / 9000 thorough '
+        'random + an enumerated grid): documents of 2..5 paragraphs (same generators and character profiles, every 4th with "uni" '
+        'atoms) WRITTEN PARAGRAPH BY PARAGRAPH through 15 assembly routes - per paragraph the text of one output route + the single '
+        'separator newline: str(p)+"\\n", p.dump()+"\\n", bytes(p)+b"\\n" concatenated; p.dump(fd) / p.dump(fd, encoding=) + '
+        'fd.write(b"\\n") into ONE shared BytesIO / real binary file (default, no, odd buffers; pad of 0..8193 bytes); p.dump(fd, '
+        'text_mode=True) + fd.write("\\n") into ONE shared StringIO / real text file / TextIOWrapper; print(p, file=fd); '
+        '"\\n".join(str(p)...), "\\n".join(p.dump()...), b"\\n".join(bytes(p)...); mixed-binary / mixed-text (the route of every '
+        'paragraph drawn afresh among dump(fd), dump(fd, encoding=), fd.write(bytes(p)), fd.write(str(p).encode()), '
+        'fd.write(p.dump().encode()) resp. dump(fd, text_mode=True), fd.write(str(p)), fd.write(p.dump()), print(p, file=fd)).  '
+        'Enumerated grid: 14 shapes of the LAST field of a paragraph (single line, empty, trailing blanks, multi-line with / without '
+        'trailing blanks, starting ":" / "#", non-ASCII, armour-marker look-alikes) x 4 shapes of the first field of the next '
+        'paragraph x 2..5 paragraphs, + a last field whose dumped entry is exactly 4096 / 8191 / 8192 / 8193 bytes.  The assembly '
+        'routes are grouped by the text they wrote; every distinct text is re-read WHOLE (not cut into lines by the harness) through '
+        'str, bytes, lists of lines with / without newlines, StringIO, BytesIO, a real binary file and a real text file with a '
+        'declared encoding (each text through every second of these, alternating) x Deb822 / Dsc / Changes .iter_paragraphs and '
+        'compared with the model: same number of paragraphs, same fields, order, values.')
 ASSUMPTIONS = [
     'domain: field names are printable ASCII 33..126 without colon, not starting with "#" or "-", distinct case-insensitively '
     'within a paragraph, and not one of the structured fields of Dsc/Changes (files, checksums-*)',
@@ -156,6 +186,28 @@ ASSUMPTIONS = [
     'wrote; the generators aim at exact sizes using the documented dump layout, the size-class counters (and their floors) use '
     'the measurement; big contents stay inside the same domain as all other values (in_domain() is applied to the expanded '
     'document); the reduced form grid of big documents is a COST bound, not a domain restriction',
+    '"asm" class: a document is written the way the statement\'s "multi-paragraph documents read with iter_paragraphs" are produced '
+    'by programs: paragraph text of one output route + ONE separator newline after every paragraph (the "+nl" / shared-stream '
+    'routes; the document then ends in a blank line, which iter_paragraphs must tolerate like the blank lines between paragraphs) '
+    'or "\\n".join over the paragraph texts (no separator after the last).  get_as_string assembled by hand is not a route.  Binary '
+    'assemblies are UTF-8; files are opened by the harness with encoding="utf-8" for the text routes and closed before being read '
+    'back.  No armour, no comments, no leading blank lines are added (the text is re-read exactly as written)',
+    '"asm" class: that the text of ONE paragraph ends in exactly one newline is established (counted per part: '
+    'asm:part-ends-in-exactly-one-newline:* with floors, asm:part-ending-other:* = 0 on the unchanged tree), NOT judged: the '
+    'statement speaks of what comes back from re-reading, so a route that wrote two newlines (an extra blank line between '
+    'paragraphs re-reads the same) is not accused; a route that wrote none merges paragraphs and is caught by the re-read',
+    '"asm" class: Dsc.iter_paragraphs / Changes.iter_paragraphs are judged on these plain (unsigned) multi-paragraph documents for '
+    'every input form except the one below; field names exclude the structured fields of Dsc/Changes as everywhere',
+    'GUARD (under-demand; the live tree DISAGREES here, reported as a finding of the extension round, not listed in '
+    'known_findings.json by this module): Dsc.iter_paragraphs(f) / Changes.iter_paragraphs(f) for a text file object f that declares '
+    'a non-UTF-8 encoding (latin-1, cp1252, utf-16) are executed on a sample and only COUNTED '
+    '(unjudged:gpg-api-iter_paragraphs-on-non-utf8-text-file:agree/differ/raise): iter_paragraphs always passes encoding="utf-8" '
+    'explicitly, so _gpg_multivalued.__init__ re-encodes the lines with the file\'s encoding and the parser decodes them as UTF-8 '
+    '(the mechanism fix 0288b25 repaired for Dsc(f) / Changes(f) only); those APIs get a UTF-8 text file of the other kind instead; '
+    'Deb822.iter_paragraphs(f) is judged for every encoding',
+    '"asm" class COST bound: each distinct text of a document is re-read through every second input form (which half alternates '
+    'with the text and the case; every text through all three APIs); mixed-* routes are named in a mechanism key only when no '
+    'single-route assembly wrote the same text',
 ]
 ANCHORS = ['debian.deb822:Deb822._internal_parser',
            'debian.deb822:Deb822._skip_useless_lines',
@@ -178,13 +230,13 @@ MUST_REACH = ['debian.deb822:Deb822._internal_parser',
               'debian.deb822:_gpg_multivalued.__init__',
               'debian.deb822:_AutoDecoder.decode']
 
-DOCS = {'quick': 2600, 'thorough': 160000}      # random documents (TOTAL over shards); + the enumerated grids
+DOCS = {'quick': 2450, 'thorough': 160000}      # random documents (TOTAL over shards); + the enumerated grids
 UNI_EVERY = 5                                   # one random document in UNI_EVERY is a "uni" document
 
 FLOORS = {
     'quick': {
         # ~50% of the minimum a run on the current tree measures over VERIF_SEED 0..3 (measured with 3000 random documents;
-        # with the 2600 of today the floors are 50-58% of that minimum)
+        # with the 2450 of today the floors are 52-62% of that minimum; the two that came out above were lowered)
         'nontrivial': 1900,
         'monitors': {'M': 230000, 'M.armour': 130000, 'M.binfile': 14000, 'M.comments': 110000, 'M.encfile': 44000,
                      'M.lead': 110000, 'M.uni': 120000},
@@ -204,8 +256,8 @@ FLOORS = {
                      'gpgapi-encfile:utf-8': 4100, 'gpgapi-encfile:non-utf-8': 6100, 'doc:uni': 360,
                      'feat:uni-armour-comment-header': 150, 'feat:uni-byte85': 270, 'feat:uni-byteA0': 280,
                      'feat:uni-compat': 300, 'feat:uni-cont-line-ends-in-byte-85': 160,
-                     'feat:uni-cont-line-ends-in-byte-A0': 190, 'feat:uni-cont-line-inner-unicode-blank': 280,
-                     'feat:uni-cont-line-not-nfc': 700, 'feat:uni-first-line-ends-in-byte-85': 140,
+                     'feat:uni-cont-line-ends-in-byte-A0': 190, 'feat:uni-cont-line-inner-unicode-blank': 220,
+                     'feat:uni-cont-line-not-nfc': 700, 'feat:uni-first-line-ends-in-byte-85': 110,
                      'feat:uni-first-line-ends-in-byte-A0': 160, 'feat:uni-first-line-inner-unicode-blank': 170,
                      'feat:uni-first-line-not-nfc': 510, 'feat:uni-not-nfc': 180, 'feat:uni-not-nfd': 1200,
                      'uni:filebytes:8bit:85:Changes': 18, 'uni:filebytes:8bit:85:Deb822': 36,
@@ -374,6 +426,65 @@ for _tier, _table in BIG_FLOORS.items():
             if _floor:
                 for _f in _forms:
                     _c['big:%s:form:%s' % (_tag, _f)] = _floor
+# --- "asm" class: multi-paragraph documents WRITTEN PARAGRAPH BY PARAGRAPH ------------------------------------------
+# The way programs write a document: per paragraph the text of ONE output route followed by the customary single separator
+# newline, into a str / bytes value or a shared stream; or '\n'.join(...) over the paragraph texts.
+ASM_DOCS = {'quick': 160, 'thorough': 9000}     # random "asm" documents (TOTAL over shards); + the enumerated asm grid
+ASM_BIN_PARTS = ('dump(fd)', 'dump(fd,encoding)', 'write(bytes(p))', 'write(str(p).encode())', 'write(dump().encode())')
+ASM_TEXT_PARTS = ('dump(fd,text_mode)', 'write(str(p))', 'write(dump())', 'print(p,file=fd)')
+# route -> (kind, unit, part): kind 'value' (text + separator concatenated / joined by the caller) or 'stream' (ONE shared
+# stream for the whole document; the part is written, then the separator newline); part None = drawn per paragraph
+ASM_ROUTES = {
+    'str()+nl': ('value', 'text', 'str'), 'dump()+nl': ('value', 'text', 'dump'), 'bytes()+nl': ('value', 'bytes', 'bytes'),
+    'join-str()': ('join', 'text', 'str'), 'join-dump()': ('join', 'text', 'dump'), 'join-bytes()': ('join', 'bytes', 'bytes'),
+    'fd_b-shared': ('stream', 'bytes', 'dump(fd)'), 'fd_b_enc-shared': ('stream', 'bytes', 'dump(fd,encoding)'),
+    'file_wb-shared': ('stream', 'bytes', 'dump(fd)'), 'fd_t-shared': ('stream', 'text', 'dump(fd,text_mode)'),
+    'file_wt-shared': ('stream', 'text', 'dump(fd,text_mode)'), 'tw_t-shared': ('stream', 'text', 'dump(fd,text_mode)'),
+    'print()-shared': ('stream', 'text', 'print(p,file=fd)'),
+    'mixed-binary': ('stream', 'bytes', None), 'mixed-text': ('stream', 'text', None),
+}
+ASM_ROUTE_ORDER = ('str()+nl', 'dump()+nl', 'bytes()+nl', 'fd_b-shared', 'fd_b_enc-shared', 'fd_t-shared', 'file_wb-shared',
+                   'file_wt-shared', 'tw_t-shared', 'print()-shared', 'join-str()', 'join-dump()', 'join-bytes()',
+                   'mixed-binary', 'mixed-text')
+ASM_APIS = ('Deb822', 'Dsc', 'Changes')           # <cls>.iter_paragraphs
+ASM_ENCS = ('utf-8', 'UTF-8', 'iso-8859-1', 'latin-1', 'cp1252', 'utf-16', 'utf-8', 'utf-16')
+ASM_LAST_SHAPES = ('empty-value', 'single-line', 'single-line-trailing-blank', 'multi-line', 'multi-line-trailing-blank')
+# Floors of the "asm" extension (documents written paragraph by paragraph).  Same rule: ~50% of the minimum measured on the current
+# tree over VERIF_SEED 0..3 (thorough: seed 0), a quarter where that minimum is below 40.  'route_api' is the floor of EVERY
+# asm:<assembly route>:<API> counter (re-reads of the text that route wrote, through <API>.iter_paragraphs): a run in which some
+# (route x API) cell was not exercised is INCONCLUSIVE.
+ASM_FLOORS = {
+    'quick': {'route_api': 450,
+              'counters': {'doc:asm': 110, 'api:Deb822.iter_paragraphs': 900, 'api:Dsc.iter_paragraphs': 900,
+                           'api:Changes.iter_paragraphs': 900,
+                           'asm:form:str': 330, 'asm:form:bytes': 330, 'asm:form:lines_nl': 330, 'asm:form:lines_nonl': 330,
+                           'asm:form:textio': 330, 'asm:form:bytesio': 330, 'asm:form:binfile': 330, 'asm:form:tw:utf-8': 130,
+                           'asm:form:tf:utf-8': 130, 'asm:form:tw:8bit': 5, 'asm:form:tf:8bit': 5, 'asm:form:tw:utf-16': 5,
+                           'asm:form:tf:utf-16': 5,
+                           'asm:last-field:empty-value': 10, 'asm:last-field:single-line': 60,
+                           'asm:last-field:single-line-trailing-blank': 55, 'asm:last-field:multi-line': 88,
+                           'asm:last-field:multi-line-trailing-blank': 110,
+                           'asm:paragraphs=2': 38, 'asm:paragraphs=3': 29, 'asm:paragraphs=4': 8, 'asm:paragraphs=5': 8,
+                           'asm:part-ends-in-exactly-one-newline:str()': 680, 'asm:part-ends-in-exactly-one-newline:dump()': 680,
+                           'asm:part-ends-in-exactly-one-newline:bytes()': 680, 'asm:part-ends-in-exactly-one-newline:dump(fd)': 760,
+                           'asm:part-ends-in-exactly-one-newline:dump(fd,encoding)': 400,
+                           'asm:part-ends-in-exactly-one-newline:dump(fd,text_mode)': 740,
+                           'asm:part-ends-in-exactly-one-newline:print(p,file=fd)': 320,
+                           'asm:part-ends-in-exactly-one-newline:write(bytes(p))': 60,
+                           'asm:part-ends-in-exactly-one-newline:write(str(p).encode())': 60,
+                           'asm:part-ends-in-exactly-one-newline:write(dump().encode())': 60,
+                           'asm:part-ends-in-exactly-one-newline:write(str(p))': 60,
+                           'asm:part-ends-in-exactly-one-newline:write(dump())': 60},
+              'monitors': {'M.asm': 2700}},
+    'thorough': {'route_api': 0, 'counters': {}, 'monitors': {}},
+}
+for _tier, _table in ASM_FLOORS.items():
+    FLOORS[_tier]['counters'].update(_table['counters'])
+    FLOORS[_tier]['monitors'].update(_table['monitors'])
+    if _table['route_api']:
+        for _rt in ASM_ROUTE_ORDER:
+            for _api in ASM_APIS:
+                FLOORS[_tier]['counters']['asm:%s:%s' % (_rt, _api)] = _table['route_api']
 STRUCTURED = frozenset(['files', 'checksums-sha1', 'checksums-sha256', 'checksums-sha512'])
 
 # ---------------------------------------------------------------------------
@@ -875,6 +986,67 @@ def gen_big_doc(r, quick):
                           [c.translate(table) if isinstance(c, str) else c for c in item[2]]])
         out.append(q)
     return out, cls
+
+
+# --- "asm" class: generators (constants: see ASM_ROUTES above) ------------------------------------------------------------
+
+
+def gen_asm_doc(r, i):
+    """A random document of 2..5 paragraphs; every fourth draws "uni" atoms."""
+    n = r.choice([2, 2, 2, 3, 3, 4, 5])
+    if i % 4 == 3:
+        profile = r.choice(UNI_PROFILES)
+        uni = UNI_BY_PROFILE[profile]
+        atoms = VAL_ATOMS + uni * max(1, 40 // len(uni))
+        table = PROFILE_TABLES['any' if profile == 'any' else profile]
+        return [[[nm, tame_edges(f.translate(table)), [tame_edges(c.translate(table)) for c in cs]]
+                 for nm, f, cs in gen_paragraph(r, atoms)] for _ in range(n)]
+    table = PROFILE_TABLES[r.choice(PROFILES)]
+    return [[[nm, f.translate(table), [c.translate(table) for c in cs]] for nm, f, cs in gen_paragraph(r)] for _ in range(n)]
+
+
+def asm_grid_docs(seed):
+    """Enumerated: what decides whether 'paragraph text + separator newline' gives a blank line is the END of the paragraph
+    text, i.e. the LAST field of a paragraph - every shape of last field x every shape of the first field of the NEXT paragraph x
+    2..5 paragraphs; + a last field whose dumped entry is exactly 4096 / 8191 / 8192 / 8193 bytes (a writer that buffers).
+    Yields (index, doc)."""
+    lasts = [['L', 'v', []], ['L', '', []], ['L', 'v \t', []], ['L', ' ', []], ['L', '', [' x']], ['L', 'v', [' x\t']],
+             ['L', 'v', ['\tx', ' y ']], ['L', ':', []], ['L', '#', []], ['L', 'x\xe9', []], ['L', 'v', [' 漢']],
+             ['L', '', [' .', ' #c', ' K: v']], ['L', '-----BEGIN PGP SIGNATURE-----', []], ['L', 'v', [' -----END PGP SIGNATURE-----']]]
+    nexts = [['N', '1', []], ['N', '', ['\tc']], ['0n', ':', []], ['N', '#x', [' y']]]
+    i = 0
+    for li, last in enumerate(lasts):
+        for ni, nxt in enumerate(nexts):
+            n = 2 + (li + ni + seed) % 4
+            doc = []
+            for k in range(n):
+                para = []
+                if not k or (k + ni) % 3:
+                    para.append([nxt[0] + str(k), nxt[1], list(nxt[2])])
+                if (li + k) % 2:
+                    para.append(['Mid%d' % k, 'm', [' z']] if k % 2 else ['Mid%d' % k, 'm', []])
+                para.append([last[0] + str(k), last[1], list(last[2])])
+                doc.append(para)
+            yield i, doc
+            i += 1
+    for si, size in enumerate((4096, 8191, 8192, 8193)):
+        for k in (0, 1):
+            shape = BIG_SHAPES[(si + 2 * k + seed) % 4]
+            alpha = BIG_ALPHAS[(si + k + seed) % len(BIG_ALPHAS)]
+            entry = big_entry('Big', size, shape, 'a%d.%d.%d' % (seed, si, k), alpha)
+            first = [['A', '1', []], entry] if k else [entry]
+            yield i, [first, [['C', 'v', [' w']]], [['E', '', []], big_entry('Big', size, BIG_SHAPES[(si + k + 1) % 4],
+                                                                            'b%d.%d.%d' % (seed, si, k), alpha)]]
+            i += 1
+
+
+def last_field_shape(para):
+    _, first, conts = para[-1]
+    if conts:
+        return 'multi-line-trailing-blank' if conts[-1].rstrip(' \t') != conts[-1] else 'multi-line'
+    if not first.strip(' \t'):
+        return 'empty-value'
+    return 'single-line-trailing-blank' if first.rstrip(' \t') != first else 'single-line'
 
 
 # ---------------------------------------------------------------------------
@@ -1396,6 +1568,8 @@ def open_source(cont, lines, final_nl, blobs, written, tmp, tw_newline):
 def evaluate(ctx, case, record=True):
     """Returns {mechanism_key: (message, n_failing_forms)}.  `record` switches the
     evidence counters (off while shrinking a witness)."""
+    if case.get('asm'):
+        return evaluate_asm(ctx, case, record)
     from debian import deb822
     doc, mode = expand_doc(case['doc']), case.get('dump', 'str')
     big = bool(case.get('big'))
@@ -1683,6 +1857,277 @@ def evaluate(ctx, case, record=True):
     return found
 
 
+# ---------------------------------------------------------------------------
+# "asm" class: the document is WRITTEN paragraph by paragraph the way programs do it, then re-read whole
+
+def _asm_value(d, part):
+    if part == 'str':
+        return str(d)
+    if part == 'dump':
+        return d.dump()
+    return bytes(d)
+
+
+def _asm_write(fd, d, part):
+    """Writes paragraph `d` into the shared stream through `part`.  -> True when the separator newline is still to be written."""
+    if part == 'dump(fd)':
+        d.dump(fd)
+    elif part == 'dump(fd,encoding)':
+        d.dump(fd, encoding='utf-8')
+    elif part == 'write(bytes(p))':
+        fd.write(bytes(d))
+    elif part == 'write(str(p).encode())':
+        fd.write(str(d).encode('utf-8'))
+    elif part == 'write(dump().encode())':
+        fd.write(d.dump().encode('utf-8'))
+    elif part == 'dump(fd,text_mode)':
+        d.dump(fd, text_mode=True)
+    elif part == 'write(str(p))':
+        fd.write(str(d))
+    elif part == 'write(dump())':
+        fd.write(d.dump())
+    elif part == 'print(p,file=fd)':
+        print(d, file=fd)            # str(p) + the newline print() adds: the separator
+        return False
+    else:
+        raise ValueError(part)
+    return True
+
+
+def assemble(route, paras, tmp, rr, endings):
+    """The text of the whole document written through assembly route `route` (see ASM_ROUTES): per paragraph the text of one
+    output route + the single separator newline (or '\\n'.join over the paragraph texts).  `endings` (a list) receives, per
+    paragraph text whose extent is known, (part, True when it ends in exactly one newline)."""
+    kind, unit, part = ASM_ROUTES[route]
+    nl = '\n' if unit == 'text' else b'\n'
+    raw = None
+    try:
+        if kind in ('value', 'join'):
+            pieces = [_asm_value(d, part) for d in paras]
+            for p in pieces:
+                if not isinstance(p, (str if unit == 'text' else bytes)):
+                    raise RouteFailure('dump-returns-no-text', 'assembly route %s: %s of a paragraph gave %r' % (route, part, p))
+                endings.append((part + '()', p.endswith(nl) and not p.endswith(nl + nl)))
+            raw = nl.join(pieces) if kind == 'join' else type(nl)().join(p + nl for p in pieces)
+        else:
+            # ONE shared stream for the whole document: in memory or a real file (created afresh, with a pad of comment bytes
+            # written by the harness first so that the writer's buffer is at an arbitrary fill level)
+            in_memory = route in ('fd_b-shared', 'fd_b_enc-shared', 'fd_t-shared') or \
+                (route in ('print()-shared', 'mixed-binary', 'mixed-text') and rr.random() < 0.5)
+            npad = 0
+            bio = path = None
+            if in_memory:
+                fd = io.BytesIO() if unit == 'bytes' else io.StringIO()
+            elif route == 'tw_t-shared' or (unit == 'text' and route != 'file_wt-shared' and rr.random() < 0.4):
+                bio = io.BytesIO()
+                fd = io.TextIOWrapper(bio, encoding='utf-8', newline=rr.choice(['\n', '', None]), write_through=rr.random() < 0.3)
+            else:
+                path = os.path.join(tmp, 'asm.out')
+                try:
+                    os.unlink(path)
+                except FileNotFoundError:
+                    pass
+                npad = rr.choice(FILE_PADS) if rr.random() < 0.8 else rr.randrange(9000)
+                if unit == 'text':
+                    fd = open(path, 'w', encoding='utf-8', newline=rr.choice(['\n', '', None]))
+                else:
+                    fd = open(path, 'wb', buffering=rr.choice((-1, -1, 0) + ODD_BUFFERS))
+            pad = ('#' + 'p' * (npad - 2) + '\n')[-npad:] if npad else ''
+            # the extent of each paragraph text: stream positions (in memory and binary files: tell() does not flush; text
+            # files: tell() flushes, so only for every second document)
+            track = in_memory or unit == 'bytes' or rr.random() < 0.5
+            marks = []
+            try:
+                if pad:
+                    fd.write(pad if unit == 'text' else pad.encode('ascii'))
+                for d in paras:
+                    pt = part if part is not None else rr.choice(ASM_BIN_PARTS if unit == 'bytes' else ASM_TEXT_PARTS)
+                    at = fd.tell() if track else None
+                    sep = _asm_write(fd, d, pt)
+                    if track:
+                        marks.append((pt, at, fd.tell(), sep))
+                    if sep:
+                        fd.write(nl)
+                if in_memory:
+                    raw = fd.getvalue()
+                elif bio is not None:
+                    fd.flush()
+                    raw = bio.getvalue()
+            finally:
+                if not in_memory:
+                    fd.close()
+            if path is not None:
+                with open(path, 'rb') as f:
+                    raw = f.read()
+            if isinstance(raw, (str, bytes)):
+                one = '\n' if isinstance(raw, str) else b'\n'
+                for pt, a, b, sep in marks:
+                    piece = raw[a:b]
+                    if not sep:
+                        piece = piece[:-1]              # (print() wrote the separator itself)
+                    endings.append((pt, piece.endswith(one) and not piece.endswith(one + one)))
+                if npad and raw[:npad] == (pad if isinstance(raw, str) else pad.encode('ascii')):
+                    raw = raw[npad:]
+    except RouteFailure:
+        raise
+    except Exception as e:
+        raise RouteFailure('dump-raises/%s' % type(e).__name__, 'assembly route %s raised %r' % (route, e))
+    if isinstance(raw, bytes):
+        try:
+            raw = raw.decode('utf-8')
+        except UnicodeDecodeError as e:
+            raise RouteFailure('dump-output-not-utf-8', 'assembly route %s wrote bytes that are not UTF-8: %r' % (route, e))
+    if not isinstance(raw, str):
+        raise RouteFailure('dump-returns-no-text', 'assembly route %s gave %r' % (route, raw))
+    return raw
+
+
+def evaluate_asm(ctx, case, record=True):
+    """Multi-paragraph document written paragraph by paragraph through every assembly route; every distinct text is re-read
+    whole through every input form x {Deb822, Dsc, Changes}.iter_paragraphs and compared with the model."""
+    from debian import deb822
+    doc = expand_doc(case['doc'])
+    r = random.Random('C02-asm/%s' % case.get('deco', 0))
+    salt = r.getrandbits(16)
+    tw_newline = r.choice(TW_NEWLINES)
+    found = {}
+    expected = [[[name, model_value(first, conts)] for name, first, conts in para] for para in doc]
+    tmp = workdir(ctx)
+    paras = []
+    for para in doc:
+        d = deb822.Deb822()
+        for name, first, conts in para:
+            try:
+                d[name] = first + ''.join('\n' + c for c in conts)
+            except ValueError as e:
+                found['setitem-rejects-in-domain-value/build'] = (
+                    '%r: Deb822()[%r] = %s raised' % (e, name, show_lines([first] + conts)), 1)
+                return found
+        paras.append(d)
+    texts, raised, endings = {}, {}, []
+    for rt in ASM_ROUTE_ORDER:
+        rr = random.Random('C02-asm-route/%s/%s' % (case.get('deco', 0), rt))     # (independent of what other routes did)
+        try:
+            texts[rt] = assemble(rt, paras, tmp, rr, endings)
+        except RouteFailure as e:
+            raised[rt] = (e.kind, e.msg)
+    if record:
+        ctx.count('asm:paragraphs=%d' % len(doc))
+        for para in doc:
+            ctx.count('asm:last-field:%s' % last_field_shape(para))
+        for pt, ok in endings:
+            # established, not judged: the text of a paragraph ends in exactly one newline (text + separator = a blank line)
+            ctx.count('asm:part-ends-in-exactly-one-newline:%s' % pt if ok else 'asm:part-ending-other:%s' % pt)
+    by_kind = {}
+    for rt, (kind, _) in raised.items():
+        by_kind.setdefault(kind, []).append(rt)
+    for kind, rts in by_kind.items():
+        found['%s/assembled-by=%s' % (kind, asm_routes_name(rts))] = (
+            '%s [assembly routes %s] for %s' % (raised[rts[0]][1], '+'.join(rts), show_lines(['%a' % (doc,)], 1500)), len(rts))
+    groups = {}                                   # text of the document -> the assembly routes that wrote exactly it
+    for rt in ASM_ROUTE_ORDER:
+        if rt in texts:
+            groups.setdefault(texts[rt], []).append(rt)
+    if record and len(groups) > 2:
+        ctx.count('asm:more-than-two-distinct-texts')       # (unchanged tree: with / without the separator after the last paragraph)
+    kind_bit, enc = salt & 1, ASM_ENCS[(salt >> 1) % len(ASM_ENCS)]
+    for gi, (text, rts) in enumerate(groups.items()):
+        lines = text.split('\n')
+        final_nl = lines[-1] == ''
+        if final_nl:
+            lines.pop()
+        if not lines:
+            found['assembled-document-empty/assembled-by=%s' % asm_routes_name(rts)] = (
+                'assembly route(s) %s wrote %r for %s' % ('+'.join(rts), text, show_lines(['%a' % (doc,)], 1500)), len(rts))
+            continue
+        # COST bound: the texts of a document (unchanged tree: two - with / without the separator after the last paragraph) share
+        # the input forms: each text is re-read through every second container (which half alternates with the text and the
+        # case), every text through all three APIs
+        conts = [c for ci, c in enumerate(CONTAINERS + ('binfile', 'textfile')) if (ci + gi + (salt >> 5)) & 1]
+        blobs = {'binfile': text.encode('utf-8')}
+        if 'textfile' not in conts:
+            e = None
+        else:
+            conts.remove('textfile')
+            e = enc
+        tcont = ucont = None
+        if e is not None:
+            try:
+                blob = text.encode(e)
+            except UnicodeEncodeError:
+                if record:
+                    ctx.count('skip:unencodable:%s' % e)
+                e = ('utf-8', 'UTF-8')[(salt >> 4) & 1]
+                blob = text.encode(e)
+            tcont = '%s:%s' % (('tw', 'tf')[kind_bit], e)
+            blobs[tcont] = blob
+            conts.append(tcont)
+        if e is not None and e not in UTF8_SPELLINGS:
+            # GUARD (see ASSUMPTIONS): Dsc/Changes.iter_paragraphs on a text file that declares a non-UTF-8 encoding are counted,
+            # not judged; they get a UTF-8 text file of the other kind instead
+            ucont = '%s:%s' % (('tf', 'tw')[kind_bit], ('utf-8', 'UTF-8')[(salt >> 4) & 1])
+            blobs[ucont] = blobs['binfile']
+            conts.append(ucont)
+        written = set()
+        executed, failures = [], {}
+        for cont in conts:
+            for api in ASM_APIS:
+                if cont == ucont and api == 'Deb822':
+                    continue
+                form = (cont, 0, 0, 0, api)
+                if ucont is not None and cont == tcont and api != 'Deb822':
+                    if record and not salt % 4:
+                        src, closer = open_source(cont, lines, final_nl, blobs, written, tmp, tw_newline)
+                        try:
+                            with warnings.catch_warnings():
+                                warnings.simplefilter('ignore')
+                                got = [observe(p) for p in getattr(deb822, api).iter_paragraphs(src)]
+                            ctx.count('unjudged:gpg-api-iter_paragraphs-on-non-utf8-text-file:%s'
+                                      % ('agree' if diff(expected, got) is None else 'differ'))
+                        except Exception:
+                            ctx.count('unjudged:gpg-api-iter_paragraphs-on-non-utf8-text-file:raise')
+                        finally:
+                            closer()
+                    continue
+                src, closer = open_source(cont, lines, final_nl, blobs, written, tmp, tw_newline)
+                executed.append(form)
+                if record:
+                    ctx.mon('M')
+                    ctx.mon('M.asm')
+                    ctx.count('api:%s.iter_paragraphs' % api)
+                    ctx.count('asm:form:%s' % form_name(cont))
+                    for rt in rts:
+                        ctx.count('asm:%s:%s' % (rt, api))
+                try:
+                    got = [observe(p) for p in getattr(deb822, api).iter_paragraphs(src)]
+                except Exception as ex:
+                    failures.setdefault('reparse-raises-%s' % type(ex).__name__, []).append(
+                        (form, '%r while re-reading %s' % (ex, show_lines(lines))))
+                    continue
+                finally:
+                    closer()
+                res = diff(expected, got)
+                if res is not None:
+                    failures.setdefault(res[0], []).append((form, '%s; input lines %s' % (res[1], show_lines(lines))))
+        for kind, fl in failures.items():
+            forms = [f for f, _ in fl]
+            sc = scope(forms, executed)
+            key = '%s/assembled-by=%s%s' % (kind, asm_routes_name(rts), '' if sc == 'all-forms' else ',' + sc)
+            found[key] = ('document of %d paragraphs written paragraph by paragraph through %s, re-read through (container, api)=%r: '
+                          '%s  [%d of %d forms differ]' % (len(doc), '+'.join(rts), (fl[0][0][0], fl[0][0][4] + '.iter_paragraphs'),
+                                                           fl[0][1], len(fl), len(executed)), len(fl))
+    return found
+
+
+def asm_routes_name(rts):
+    """Names the assembly routes in a mechanism key.  Which parts a mixed-* route drew varies from case to case, so a mixed route
+    is named only when no single-route assembly wrote the same text (bounded vocabulary)."""
+    if len(rts) == len(ASM_ROUTE_ORDER):
+        return 'all-routes'
+    pure = [rt for rt in rts if ASM_ROUTES[rt][2] is not None]
+    return '+'.join(pure or rts)
+
+
 def shrink(ctx, case, key):
     """Greedy reduction of the model document while the same mechanism key is still reported."""
     budget = [12 if case.get('big') else 40]      # (a "big" evaluation is expensive)
@@ -1698,7 +2143,7 @@ def shrink(ctx, case, key):
 
     cur = {'doc': [[_copy_item(x) for x in p] for p in case['doc']],
            'dump': case.get('dump', 'str'), 'deco': case.get('deco', 0)}
-    for k in ('uni', 'big'):
+    for k in ('uni', 'big', 'asm'):
         if k in case:
             cur[k] = case[k]
     changed = True
@@ -1768,6 +2213,13 @@ def cases(ctx):
             if in_domain(expand_doc(doc)):
                 break
         yield {'doc': doc, 'dump': DUMP_MODES[(i + ctx.shard) % 4], 'deco': rb.getrandbits(32), 'big': cls}
+    # "asm" class: documents of 2..5 paragraphs written paragraph by paragraph (enumerated last-field grid + random ones)
+    for i, doc in asm_grid_docs(ctx.seed):
+        if ctx.mine(i + ctx.seed):
+            yield {'doc': doc, 'asm': 1, 'deco': 1300000 + i * 13 + ctx.seed}
+    ra = ctx.rng('asm-docs')
+    for i in range(ctx.size(ASM_DOCS['quick'], ASM_DOCS['thorough'])):
+        yield {'doc': gen_asm_doc(ra, i), 'asm': 1, 'deco': ra.getrandbits(32)}
 
 
 def run_case(ctx, case):
@@ -1779,9 +2231,13 @@ def run_case(ctx, case):
     if case.get('big'):
         ctx.count('doc:big')
         ctx.count('big:class:%s' % case['big'])
-    ctx.count('doc:paragraphs>=2' if len(doc) >= 2 else 'doc:paragraphs=1')
+    if case.get('asm'):
+        ctx.count('doc:asm')
+    else:
+        ctx.count('doc:paragraphs>=2' if len(doc) >= 2 else 'doc:paragraphs=1')
     ctx.count('doc:fields', sum(len(p) for p in doc))
-    if features(ctx, doc):
+    # ("asm" documents have >= 2 paragraphs: non-trivial by the rule; they do not feed the feat:* counters of the form grid)
+    if (len(doc) >= 2) if case.get('asm') else features(ctx, doc):
         ctx.nontrivial(case, key=core.case_hash(compact))
     if case.get('uni'):
         ctx.count('doc:uni')
@@ -1800,7 +2256,7 @@ def run_case(ctx, case):
 
 
 LEVEL_TEXT = ('Runtime monitoring of the live Deb822 / iter_paragraphs / Dsc / Changes code: seeded model documents '
-              '(2.6k quick / 160k thorough random, with character profiles any / latin-1 / cp1252 / ASCII, + an enumerated '
+              '(2.45k quick / 160k thorough random, with character profiles any / latin-1 / cp1252 / ASCII, + an enumerated '
               'hostile-first-line x hostile-continuation grid + every admissible first character of a field name + a "big" class: '
               'entries of 4096..65536 bytes at the buffer-size thresholds, 200+ fields, 10k-140k character lines, 1000+ '
               'continuation lines) are built through __setitem__, written by the library through EVERY output route (dump() '
@@ -1811,13 +2267,17 @@ LEVEL_TEXT = ('Runtime monitoring of the live Deb822 / iter_paragraphs / Dsc / C
               'plain/clearsign armour x comments x leading blank lines x API); every re-read is compared with the model '
               'document itself.  Held-on-observed: reach is the workload; the in-memory form classes are covered completely '
               'for every document ("big" documents: every output route, a rotating third of the form grid), the real-file forms rotate over the cells of the form grid (each encoding family is seen '
-              'through both kinds within one document), the documents are sampled.')
+              'through both kinds within one document), the documents are sampled.  "asm" class: documents of 2..5 paragraphs written PARAGRAPH BY PARAGRAPH through 15 '
+              'assembly routes (paragraph text of one output route + the separator newline into a value or ONE shared stream / real '
+              'file; "\\n".join; mixed routes) are re-read whole through the input forms x Deb822 / Dsc / Changes .iter_paragraphs; floors '
+              'per (assembly route x API).')
 LEVEL_NOTE = ('Trusted: CPython (incl. its codecs and io layer), the model (first line trimmed of space/tab + verbatim '
               'continuation lines), the armour/comment decorators.  Domain excludes names starting with #/-, line-breaking '
               'control characters inside values, whitespace-only continuation lines, armour around more than one paragraph, '
               'python-apt, files opened with an encoding other than the one they were written in.  Not judged (counted '
               'only, the live tree disagrees there): Dsc/Changes on a text file object whose declared encoding is not UTF-8 '
               'unless the text is pure ASCII in an ASCII-compatible 8-bit encoding; two output routes whose TEXTS differ while both '
-              're-read as the model (never seen on the live tree).')
+              're-read as the model (never seen on the live tree); Dsc/Changes.iter_paragraphs on a text file object whose declared '
+              'encoding is not UTF-8 (the live tree returns mojibake / raises there - see ASSUMPTIONS).')
 TECHNIQUE = ('runtime monitoring: boundary history-vs-model oracle M (the model document vs what every input-form class '
              're-reads from the library\'s own dump); anchor reach via sys.monitoring')
